@@ -158,8 +158,12 @@ RCP<const Basic> conjugate(const RCP<const Basic> &arg)
     if (is_a<Mul>(*arg)) {
         const map_basic_basic &dict = down_cast<const Mul &>(*arg).get_dict();
         map_basic_basic new_dict;
-        RCP<const Number> coef = rcp_static_cast<const Number>(
-            conjugate(down_cast<const Mul &>(*arg).get_coef()));
+        // the conjugate of zoo is kept unevaluated (not a Number): zoo stays the coefficient
+        RCP<const Basic> ccoef
+            = conjugate(down_cast<const Mul &>(*arg).get_coef());
+        RCP<const Number> coef
+            = is_a_Number(*ccoef) ? rcp_static_cast<const Number>(ccoef)
+                                  : down_cast<const Mul &>(*arg).get_coef();
         for (const auto &p : dict) {
             if (is_a<Integer>(*p.second)) {
                 Mul::dict_add_term_new(outArg(coef), new_dict, p.second,
